@@ -14,6 +14,7 @@ type Term struct {
 	C    *big.Int // for const
 	Name string   // for var
 	I, J int      // extract hi, lo; zext/sext amount in I
+	Tbl  []*big.Int // op "tbl": constant table indexed by Args[0]
 	id   int
 }
 
@@ -358,6 +359,16 @@ func (f *TermFactory) Cmp(op string, a, b *Term) *Term {
 	if a == b {
 		return f.Bool(op == "=" || op == "bvule" || op == "bvsle")
 	}
+	if a.Op == "tbl" && b.IsConst() && len(a.Tbl) <= 64 {
+		return f.cmpTableConst(op, a, b, true)
+	}
+	if b.Op == "tbl" && a.IsConst() && len(b.Tbl) <= 64 {
+		return f.cmpTableConst(op, b, a, false)
+	}
+	if op == "=" && a.Op == "tbl" && b.Op == "tbl" && sameTable(a, b) && injective(a.Tbl) && a.Args[0].W == b.Args[0].W {
+		// both indexes are in range under the path condition
+		return f.Cmp("=", a.Args[0], b.Args[0])
+	}
 	return f.mk(op, 0, []*Term{a, b}, nil, "", 0, 0)
 }
 func (f *TermFactory) LNot(a *Term) *Term {
@@ -458,6 +469,16 @@ func (p *Printer) ref(t *Term) string {
 			e = fmt.Sprintf("((_ zero_extend %d) %s)", t.I, args[0])
 		case "sext":
 			e = fmt.Sprintf("((_ sign_extend %d) %s)", t.I, args[0])
+		case "tbl":
+			iw := t.Args[0].W
+			var sb strings.Builder
+			n := len(t.Tbl)
+			for i := 0; i < n-1; i++ {
+				fmt.Fprintf(&sb, "(ite (= %s (_ bv%d %d)) (_ bv%s %d) ", args[0], i, iw, t.Tbl[i].String(), t.W)
+			}
+			fmt.Fprintf(&sb, "(_ bv%s %d)", t.Tbl[n-1].String(), t.W)
+			sb.WriteString(strings.Repeat(")", n-1))
+			e = sb.String()
 		default:
 			e = "(" + t.Op + " " + strings.Join(args, " ") + ")"
 		}
@@ -465,4 +486,72 @@ func (p *Printer) ref(t *Term) string {
 		p.defined[t.id] = p.depth
 	}
 	return fmt.Sprintf("t%d", t.id)
+}
+
+// TableSel is tbl[idx] for a constant table (idx is known to be in range under
+// the path condition; out-of-range values select the last element). Keeping
+// the table visible lets comparisons be rewritten into conditions on the index.
+func (f *TermFactory) TableSel(tbl []*big.Int, w int, idx *Term) *Term {
+	if idx.IsConst() {
+		i := int(idx.C.Int64())
+		if i >= len(tbl) {
+			i = len(tbl) - 1
+		}
+		return f.Const(w, tbl[i])
+	}
+	var sb strings.Builder
+	for _, c := range tbl {
+		sb.WriteString(c.Text(16))
+		sb.WriteByte(',')
+	}
+	t := f.mk("tbl", w, []*Term{idx}, nil, sb.String(), 0, 0)
+	if t.Tbl == nil {
+		t.Tbl = tbl
+	}
+	return t
+}
+
+func sameTable(a, b *Term) bool { return a.Name == b.Name && a.W == b.W }
+
+func injective(tbl []*big.Int) bool {
+	seen := map[string]bool{}
+	for _, c := range tbl {
+		k := c.Text(16)
+		if seen[k] {
+			return false
+		}
+		seen[k] = true
+	}
+	return true
+}
+
+// cmpTableConst rewrites (op tbl[i] c) resp. (op c tbl[i]) into a condition on i.
+func (f *TermFactory) cmpTableConst(op string, t *Term, c *Term, tblLeft bool) *Term {
+	idx := t.Args[0]
+	res := f.False()
+	n := len(t.Tbl)
+	all := true
+	for i := n - 1; i >= 0; i-- {
+		e := f.Const(t.W, t.Tbl[i])
+		var r *Term
+		if tblLeft {
+			r = f.Cmp(op, e, c)
+		} else {
+			r = f.Cmp(op, c, e)
+		}
+		if r.IsTrue() {
+			if i == n-1 {
+				// the last element also stands for every out-of-range index
+				res = f.LOr(res, f.Cmp("bvule", f.ConstU(idx.W, uint64(i)), idx))
+			} else {
+				res = f.LOr(res, f.Cmp("=", idx, f.ConstU(idx.W, uint64(i))))
+			}
+		} else {
+			all = false
+		}
+	}
+	if all {
+		return f.True()
+	}
+	return res
 }
